@@ -41,6 +41,8 @@ func main() {
 		os.Exit(cmdList(os.Args[2:]))
 	case "replay":
 		os.Exit(cmdReplay(os.Args[2:]))
+	case "effects":
+		os.Exit(cmdEffects(os.Args[2:]))
 	default:
 		usage()
 	}
@@ -418,4 +420,23 @@ func writeJSON(path string, v interface{}) error {
 	}
 	os.MkdirAll(filepath.Dir(path), 0o755)
 	return os.WriteFile(path, append(data, '\n'), 0o644)
+}
+
+func cmdEffects(args []string) int {
+	e := load()
+	ef := e.BuildEffects()
+	var ks []string
+	for k := range ef.fns {
+		ks = append(ks, k)
+	}
+	sort.Strings(ks)
+	for _, k := range ks {
+		if len(args) > 0 && !strings.Contains(k, args[0]) {
+			continue
+		}
+		s := ef.sum[ef.fns[k]]
+		fmt.Printf("%s\n   writesGlobals=%v\n   writesParams=%v\n   unknown=%v\n   readsGlobals=%v\n   impure=%v\n   result: fresh=%v params=%v globals=%v unknown=%v\n", k, s.writesGlobals, s.writesParams, s.writesUnknown, s.readsGlobals, s.impure, s.resultRoots.fresh, s.resultRoots.params, s.resultRoots.globals, s.resultRoots.unknown)
+	}
+	fmt.Println("mutable globals:", ef.mutableGlobals)
+	return 0
 }
